@@ -8,8 +8,14 @@ an application callback that raises).  Oracle: the failing call raises to its ca
 held; follow-up sends are decrypted in order by the peer and follow-up incoming stanzas reach the application - on the
 same connection when the failure happened above the cipher, after a reconnect in every case.
 """
+import os
+import sys
+import json
+
 from .. import compat  # noqa: F401
 from ..core import Outcome, HarnessError
+
+VERIF_DIR = os.path.dirname(os.path.dirname(os.path.dirname(os.path.abspath(__file__))))
 from ..kit import transport as TR
 from ..kit import sched as S
 from ..ref import codec as R
@@ -256,9 +262,29 @@ def run_login_race(case):
         rig.close()
 
 
+def run_key_fetch_fault(case):
+    """runs in a process of its own (vlib/props/c12_e2e.py): the full-client harness and the scheduler-driven transport rig of the
+    other sub-cases patch the same module globals differently"""
+    import subprocess
+    out = Outcome()
+    r = subprocess.run([sys.executable, "-m", "vlib.props.c12_e2e", json.dumps(case)], cwd=VERIF_DIR, stdout=subprocess.PIPE,
+                       stderr=subprocess.PIPE, timeout=600, env=dict(os.environ, PYTHONDONTWRITEBYTECODE="1"))
+    line = [l for l in r.stdout.decode("utf-8", "replace").splitlines() if l.startswith("OUTCOME ")]
+    if r.returncode != 0 or not line:
+        raise HarnessError("key_fetch_fault child failed rc=%s: %s" % (r.returncode, r.stderr.decode("utf-8", "replace")[-600:]))
+    d = json.loads(line[-1][len("OUTCOME "):])
+    out.label(*d["labels"])
+    for v in d["violations"]:
+        out.fail(v["kind"], v["key"], v["detail"])
+    out.info = d.get("info")
+    return out
+
+
 def run_case(case):
     if case.get("sub") == "login_race":
         return run_login_race(case)
+    if case.get("sub") == "key_fetch_fault":
+        return run_key_fetch_fault(case)
     out = Outcome()
     variant = case["variant"]
     fault = case["fault"]
@@ -525,6 +551,8 @@ def shrink_candidates(case):
     if case.get("choices"):
         yield dict(case, choices=[])
         yield dict(case, choices=case["choices"][:len(case["choices"]) // 2])
+    if case.get("sub") == "key_fetch_fault":
+        return
     if case.get("sub") == "login_race":
         if case["frames"] > 2:
             yield dict(case, frames=case["frames"] - 1)
@@ -623,13 +651,22 @@ def _enum_login_race():
             yield {"sub": "login_race", "frames": n, "coalesced": k, "overlap": overlap, "choices": []}
 
 
+def _enum_key_fetch_fault():
+    for policies in (["error"], ["drop"], ["error", "error"], ["drop", "error"]):
+        for reconnect in (False, True):
+            yield {"sub": "key_fetch_fault", "policies": policies, "reconnect": reconnect, "later": 2}
+
+
 def plan(tier):
     quick = tier == "quick"
+    kff = st.builds(lambda p, r, n: {"sub": "key_fetch_fault", "policies": p, "reconnect": r, "later": n},
+                    st.lists(st.sampled_from(["error", "drop"]), min_size=1, max_size=3), st.booleans(), st.integers(1, 3))
     return {
         "shards": 16,
-        "enumerations": [("every_site", _enum_sites), ("login_race_basic", _enum_login_race)],
+        "enumerations": [("every_site", _enum_sites), ("login_race_basic", _enum_login_race), ("key_fetch_fault_basic", _enum_key_fetch_fault)],
         "exhaustive": ["every_site"],
-        "strategies": [("faults", case_strategy(), 60 if quick else 4000), ("login_race", login_race_strategy(), 30 if quick else 2000)],
+        "strategies": [("faults", case_strategy(), 60 if quick else 4000), ("login_race", login_race_strategy(), 30 if quick else 2000),
+                       ("key_fetch_fault", kff, 16 if quick else 300)],
         "shrink": "ddmin",
         "budget_s": 150 if quick else 1500,
     }
